@@ -180,7 +180,7 @@ func scriptedHook(cfg scfg) func(name string, req map[string]interface{}) vs.Hoo
 				}
 			}
 		}
-		if !finalizing || mode == "finalize-keeps" || mode == "finalize-latest" {
+		if !finalizing || mode == "finalize-keeps" || mode == "finalize-latest" || mode == "finalize-oldest" {
 			n := int(objInt(parent, "spec", "replicas"))
 			for i := 0; i < n && len(cfg.Children) > 0; i++ {
 				c := cfg.Children[0]
@@ -270,7 +270,8 @@ func scriptedHook(cfg scfg) func(name string, req map[string]interface{}) vs.Hoo
 		if finalizing {
 			// "finalize-latest": the answer depends on the (revisioned) spec, so parent revisions can disagree
 			img := objStr(parent, "spec", "image")
-			resp["finalized"] = observed == 0 || mode == "finalize-now" || (mode == "finalize-latest" && (img == "v2" || img == "v3"))
+			resp["finalized"] = observed == 0 || mode == "finalize-now" || (mode == "finalize-latest" && (img == "v2" || img == "v3")) ||
+				(mode == "finalize-oldest" && img == "v1")
 		}
 		if mode == "resync" {
 			resp["resyncAfterSeconds"] = int64(30)
